@@ -196,3 +196,12 @@ func shapeNote(lines []vLine) string {
 	}
 	return s
 }
+
+// nodeRel: the names from the root to node i
+func nodeRel(nodes []vNode, i int) []string {
+	if nodes[i].parent < 0 {
+		return []string{nodes[i].name}
+	}
+	return append(nodeRel(nodes, nodes[i].parent), nodes[i].name)
+}
+
